@@ -19,9 +19,7 @@ CORE level.  Three parts (see DESIGN.md section 6, C03):
 from __future__ import annotations
 
 import functools
-import math
 import random
-from fractions import Fraction
 
 import numpy as np
 
@@ -37,21 +35,22 @@ THEOREMS = ["PorepyVerif.C03." + t for t in _THM]
 LEAN_MODULES = ["PorepyVerif.C03.Props"]
 AUDIT = "PorepyVerif/C03/Audit.lean"
 DRIVER = "PorepyVerif/C03/Driver.lean"
-N = {"quick": 18, "thorough": 240}
-DISABLED = True
+N = {"quick": 18, "thorough": 175}
 
 # ------------------------------------------------------------------------------------------------ configurations
 FAMILIES = ["spf", "meb", "mom", "poro", "thm"]
-# quick tier: six configurations, every family, 0/1/2 fractures, both grid types
+# quick tier: six configurations, every family, 0/1/2 fractures, both grid types, one 3d model (only there is the
+# tangential fracture displacement a vector, i.e. l2_norm is not abs)
 QUICK_CONFIGS = [
-    ("spf", 2, "cartesian"),
-    ("meb", 1, "simplex"),
-    ("mom", 1, "cartesian"),
-    ("poro", 1, "cartesian"),
-    ("thm", 2, "cartesian"),
-    ("thm", 0, "simplex"),
+    ("spf", 2, "cartesian", 2),
+    ("meb", 1, "simplex", 2),
+    ("mom", 1, "cartesian", 3),
+    ("poro", 1, "cartesian", 2),
+    ("thm", 2, "cartesian", 2),
+    ("thm", 0, "simplex", 2),
 ]
-ALL_CONFIGS = [(f, k, g) for f in FAMILIES for k in (0, 1, 2) for g in ("cartesian", "simplex")]
+ALL_CONFIGS = [(f, k, g, 2) for f in FAMILIES for k in (0, 1, 2) for g in ("cartesian", "simplex")] + [
+    ("mom", 1, "cartesian", 3), ("mom", 2, "cartesian", 3), ("thm", 1, "cartesian", 3), ("spf", 2, "cartesian", 3), ("poro", 1, "simplex", 3)]
 
 FLUID = dict(compressibility=0.3, thermal_expansion=0.2, density=1.3, viscosity=0.7, specific_heat_capacity=1.1,
              thermal_conductivity=0.9, normal_thermal_conductivity=0.8)
@@ -380,8 +379,34 @@ def _cfg_str(cfg):
     return f"{cfg['family']}/{cfg['fractures']}frac/{cfg['grid']}/{cfg.get('dim', 2)}d"
 
 
+def _raised_in_porepy(exc):
+    """True iff the innermost frame of the exception's traceback is porepy code (not this harness, not numpy/scipy called
+    directly by the harness)."""
+    import os
+    import porepy
+    tb, last = exc.__traceback__, None
+    while tb is not None:
+        last = tb.tb_frame.f_code.co_filename
+        tb = tb.tb_next
+    root = os.path.dirname(os.path.realpath(porepy.__file__)) + os.sep
+    return last is not None and os.path.realpath(last).startswith(root)
+
+
 def oracle(case):
-    """The property on the real code: J(x) d == d/de residual(x + e d) at e = 0 (discretisation matrices fixed),
+    """The property on the real code; an exception raised by porepy itself while building or assembling a shipped
+    model means there is no Jacobian to speak of and is reported as a failure (harness errors propagate)."""
+    try:
+        return _oracle(case)
+    except Exception as e:
+        if not _raised_in_porepy(e):
+            raise
+        cfg = case["config"]
+        return {"what": f"{_cfg_str(cfg)}: building / assembling the model raises {type(e).__name__}: {str(e)[:300]}",
+                "key": f"assemble-raises:{cfg['family']}:{type(e).__name__}"}
+
+
+def _oracle(case):
+    """J(x) d == d/de residual(x + e d) at e = 0 (discretisation matrices fixed),
     J, -residual from `assemble(state=x)`, the residual from `assemble(evaluate_jacobian=False, state=...)`."""
     model, x, d, census, rec, nodes, attempt, smooth = _prepare(case)
     es = model.equation_system
@@ -447,20 +472,13 @@ def oracle(case):
 
 # ------------------------------------------------------------------------------------------------ generator
 _COUNTER = {"quick": 0, "thorough": 0}
-THOROUGH_3D = [("mom", 1, "cartesian"), ("thm", 1, "cartesian"), ("spf", 2, "cartesian")]
 
 
 def gen_case(rng, tier):
     k = _COUNTER[tier]
     _COUNTER[tier] += 1
-    dim = 2
-    if tier == "quick":
-        fam, nf, grid = QUICK_CONFIGS[k % len(QUICK_CONFIGS)]
-    else:
-        pool = ALL_CONFIGS + THOROUGH_3D
-        j = k % len(pool)
-        fam, nf, grid = pool[j]
-        dim = 3 if j >= len(ALL_CONFIGS) else 2
+    pool = QUICK_CONFIGS if tier == "quick" else ALL_CONFIGS
+    fam, nf, grid, dim = pool[k % len(pool)]
     return {
         "config": {"family": fam, "fractures": nf, "grid": grid, "dim": dim},
         "state_seed": rng.randrange(10**9),
@@ -657,8 +675,8 @@ RULE = ("case = (model family x number of fractures x grid type, state seed, dir
         "cell size 0.5) grid with non-trivial O(1) material constants (compressibility, thermal expansion, Biot, dilation, friction ...); "
         "state = initial state + U(-amp,amp) on every dof, previous time step = U(-0.3,0.3) or 0; states closer to a kink of "
         "maximum/abs/l2_norm/characteristic_function than 4x the variation over the stencil are re-drawn; direction dense / one variable "
-        "block / one dof; quick: 6 configurations (all five families, 0/1/2 fractures, Cartesian and simplex), thorough: all 30 "
-        "family x fractures x grid combinations + three 3d models; distinct = distinct (configuration, state, direction)")
+        "block / one dof; quick: 6 configurations (all five families, 0/1/2 fractures, Cartesian and simplex, one 3d), thorough: all 30 "
+        "family x fractures x grid combinations in 2d + five 3d models; distinct = distinct (configuration, state, direction)")
 TRUSTED = [
     "CORE: the theorems are about abstract expression trees whose node rules are the formulas of Model.lean/Lemmas.lean; that the real "
     "operator trees consist of such nodes is checked per run by the tree auditor (census of every node of every equation against the "
